@@ -93,16 +93,28 @@ def planEnter (m : Machine) (L : List Path) : List Entry × Option EErr :=
 -- domain / exits / paths -------------------------------------------------------------------------
 def domain (src tgt : Path) : Path := Spec.domain src tgt
 
-/-- `_find_transition_domain`: `none` is Python's `None` ("the whole machine"), returned exactly
-    when the target is the root (its parent is `None`). -/
-def domainO (src tgt : Path) : Option Path :=
-  if tgt = [] then none else some (domain src tgt)
+/-- `_find_transition_domain`: `none` is Python's `None` ("the whole machine"): the parent of the
+    root. The last rule lifts the domain above a parallel state whose history child is targeted. -/
+def domainO (m : Machine) (src tgt : Path) : Option Path :=
+  if tgt = src then (if src = [] then none else some src.dropLast)
+  else if tgt <+: src then (if tgt = [] then none else some tgt.dropLast)
+  else
+    let d := Spec.lcp src tgt
+    if m.kindAt tgt = some .history ∧ m.kindAt d = some .parallel ∧ tgt.dropLast = d then
+      (if d = [] then none else some d.dropLast)
+    else some d
 
 def exitSet (m : Machine) (c : List Path) (dom tgt : Path) : List Path := Spec.exitSet m.root c dom tgt
 
 def pathFrom (dom x : Path) : List Path :=
   if dom.isPrefixOf x then (List.range (x.length - dom.length)).map (fun i => x.take (dom.length + 1 + i))
   else (List.range (x.length + 1)).map (fun i => x.take i)
+
+/-- `_get_path_to_state(x, stop_at=dom)`; with `None` the walk reaches (and includes) the root -/
+def pathFromO (dom : Option Path) (x : Path) : List Path :=
+  match dom with
+  | some d => pathFrom d x
+  | none => (List.range (x.length + 1)).map (fun i => x.take i)
 
 def sortExit (m : Machine) (xs : List Path) : List Path :=
   (sortBy (fun a b => a.length < b.length || (a.length == b.length && decide (m.idOf a ≤ m.idOf b))) xs).reverse
@@ -143,20 +155,15 @@ def planTransition (m : Machine) (cfg : List Path) (hist : List (Path × List Pa
     | none => { err := some (.stateNotFound tstr), internal := true }
     | some tgt =>
       if tgt = c.src && !t.reenter then { actions := t.actions, internal := true } else
-      if tgt = [] then
-        -- root target: domain `None`; everything is exited and the root is re-entered
-        let (es, e) := planEnter m [[]]
-        { exits := sortExit m cfg, actions := t.actions, entries := es, err := e }
-      else
-      let dom := domain c.src tgt
-      let exits := sortExit m (exitSet m cfg dom tgt)
+      let domO := domainO m c.src tgt
+      let exits := sortExit m (match domO with | none => cfg | some dom => exitSet m cfg dom tgt)
       if m.kindAt tgt = some .history then
         let targets := resolveHistoryTarget m hist tgt
-        let combined := (targets.flatMap (pathFrom dom)).eraseDups
+        let combined := (targets.flatMap (pathFromO domO)).eraseDups
         let (es, e) := planEnter m combined
         { exits, actions := t.actions, entries := es, err := e }
       else
-        let (es, e) := planEnter m (pathFrom dom tgt)
+        let (es, e) := planEnter m (pathFromO domO tgt)
         { exits, actions := t.actions, entries := es, err := e }
 
 end XSM
